@@ -38,6 +38,7 @@ type Contract struct {
 	Ensures  []*Clause
 	Loops    map[int][]*Clause
 	Modifies []string
+	Decreases *Clause
 	ModFn    string
 	Inline   bool
 	Pure     bool
@@ -65,7 +66,7 @@ type ContractSet struct {
 	// per package: extra Go source from the generator
 }
 
-var kwRe = regexp.MustCompile(`^(pred|func|ext|iface|lemma|requires|ensures|modifies|loop|inline|pure|trusted|opaque|serves|uses|maypanic|attr)\b`)
+var kwRe = regexp.MustCompile(`^(pred|func|ext|iface|lemma|requires|ensures|modifies|loop|inline|pure|trusted|opaque|serves|uses|maypanic|attr|decreases)\b`)
 
 // parseContractComments extracts contracts from the //@ lines of a file.
 func parseContractComments(fset *token.FileSet, f *ast.File, pkgPath string) ([]*Contract, error) {
@@ -75,10 +76,10 @@ func parseContractComments(fset *token.FileSet, f *ast.File, pkgPath string) ([]
 	var lastList *[]string
 	for _, cg := range f.Comments {
 		for _, c := range cg.List {
-			if !strings.HasPrefix(c.Text, "//@") {
+			if !isContractComment(c.Text) {
 				continue
 			}
-			text := strings.TrimSpace(c.Text[3:])
+			text := strings.TrimSpace(c.Text[strings.Index(c.Text, "@")+1:])
 			pos := fset.Position(c.Pos())
 			where := fmt.Sprintf("%s:%d", pos.Filename, pos.Line)
 			if text == "" {
@@ -171,12 +172,18 @@ func parseContractComments(fset *token.FileSet, f *ast.File, pkgPath string) ([]
 						kind = "invariant"
 					case strings.HasPrefix(r2, "decreases"):
 						kind = "decreases"
+					case strings.HasPrefix(r2, "after"):
+						kind = "after"
 					default:
 						return nil, fmt.Errorf("%s: bad loop clause kind", where)
 					}
 					label, _, e := splitLabel(strings.TrimSpace(r2[len(kind):]))
 					cl := &Clause{Kind: kind, Label: label, Expr: e, Loop: n, Line: where}
 					cur.Loops[n] = append(cur.Loops[n], cl)
+					lastClause = cl
+				case "decreases":
+					cl := &Clause{Kind: "decreases", Expr: rest, Line: where}
+					cur.Decreases = cl
 					lastClause = cl
 				case "modifies":
 					for _, p := range splitTop(rest, ',') {
@@ -545,6 +552,22 @@ func vcFresh[T any](p T) bool                { return true }
 func vcModGhost[T any](name string, obj T)    {}
 func vcSameSlice[T any](a, b []T) bool        { return len(a) == len(b) && (len(a) == 0 || &a[0] == &b[0]) }
 func vcByteStr(c byte) string                { return string([]byte{c}) }
+
+// vcSeq is a mathematical sequence value (the contents of a slice's backing store at one moment);
+// recursive specification functions take these, never the heap.  Indices are those of the backing
+// store: element i of slice s is vcSeqAt(vcElemsOf(s), vcOff(s)+i); for the executable version the
+// copy starts at 0 and vcOff is 0.
+type vcSeq[T any] []T
+
+func vcElemsOf[T any](s []T) vcSeq[T]   { return append(vcSeq[T](nil), s...) }
+func vcOff[T any](s []T) int             { return 0 }
+func vcSeqAt[T any](q vcSeq[T], i int) T { return q[i] }
+func vcIte[T any](c bool, a, b T) T {
+	if c {
+		return a
+	}
+	return b
+}
 `
 
 type genCtx struct {
@@ -659,7 +682,7 @@ func Generate(w *World, cs *ContractSet) error {
 			hasC := false
 			for _, cg := range f.Comments {
 				for _, cm := range cg.List {
-					if strings.HasPrefix(cm.Text, "//@") {
+					if isContractComment(cm.Text) {
 						hasC = true
 					}
 				}
@@ -696,7 +719,9 @@ func Generate(w *World, cs *ContractSet) error {
 				fmt.Fprintf(&src, "import %q\n", p)
 			}
 		}
-		src.WriteString(genHelpers)
+		if !hasHelpersOnDisk(pk) {
+			src.WriteString(genHelpers)
+		}
 		src.WriteString(body.String())
 		pk.GenSrc = src.String()
 	}
@@ -776,6 +801,14 @@ func (g *genCtx) genContract(c *Contract, lp interface{}, out *strings.Builder) 
 			return err
 		}
 	}
+	if c.Decreases != nil {
+		e, err := rewriteExpr(c.Decreases.Expr)
+		if err != nil {
+			return fmt.Errorf("%s: %v", c.Decreases.Line, err)
+		}
+		c.Decreases.GenFn = "vc_decf_" + base
+		fmt.Fprintf(out, "\nfunc %s%s(%s) int { return %s }\n", c.Decreases.GenFn, c.TypeParams, params, e)
+	}
 	if len(c.Modifies) > 0 {
 		c.ModFn = "vc_mod_" + base
 		var ms []string
@@ -817,7 +850,7 @@ func (g *genCtx) genContract(c *Contract, lp interface{}, out *strings.Builder) 
 					rt = "int"
 				}
 				cl.Locals = names
-				if err := emit(cl, fmt.Sprintf("vc_%s_%s_%d_%d", map[string]string{"invariant": "inv", "decreases": "dec"}[cl.Kind], base, k, i), plist, rt); err != nil {
+				if err := emit(cl, fmt.Sprintf("vc_%s_%s_%d_%d", map[string]string{"invariant": "inv", "decreases": "dec", "after": "aft"}[cl.Kind], base, k, i), plist, rt); err != nil {
 					return err
 				}
 			}
@@ -1065,4 +1098,31 @@ func stripLits(s string) string {
 func isBoundIn(expr, id string) bool {
 	re := regexp.MustCompile(`(forall|exists)\s+([^:]*\b)?` + regexp.QuoteMeta(id) + `\s+[A-Za-z_\[\]\*\.0-9]+\s*(,[^:]*)?::`)
 	return re.MatchString(expr)
+}
+
+func hasHelpersOnDisk(pk *Pkg) bool {
+	for _, f := range pk.Files {
+		for _, d := range f.Decls {
+			if fd, ok := d.(*ast.FuncDecl); ok && fd.Name.Name == "vcForall" {
+				return true
+			}
+		}
+	}
+	return false
+}
+
+// HelperFileText is the content of pkg/<p>/zz_vc_verif.go (committed next to the contract file so
+// that hand-written specification Go compiles under -tags verif).
+func HelperFileText(pkgName string, tag bool) string {
+	h := ""
+	if tag {
+		h = "//go:build verif\n\n"
+	}
+	return h + "// Code generated by govc (verification helpers); DO NOT EDIT.\n\npackage " + pkgName + "\n" + genHelpers
+}
+
+// isContractComment: "//@ ..." (and "// @ ...", which is what gofmt turns the former into inside
+// doc comments).
+func isContractComment(t string) bool {
+	return strings.HasPrefix(t, "//@") || strings.HasPrefix(t, "// @")
 }
